@@ -216,7 +216,15 @@ func (g *qgen) arguments(f *ast.FieldDefinition) string {
 	return "(" + strings.Join(parts, ", ") + ")"
 }
 
+// compKeys: response keys of composite fields already selected for the SAME object in an enclosing scope or a sibling
+// fragment. A second composite selection under such a key makes bramble's response shaper append to the first
+// occurrence's selection on every visited object (execution.go:623) — with nested lists the growth is exponential
+// (recorded finding KF-selection-growth), so the random stream avoids it; the corpus exercises it on small data.
 func (g *qgen) selectionSet(def *ast.Definition, depth int, pathKeys []string, isRoot bool) string {
+	return g.selectionSetIn(def, depth, pathKeys, isRoot, map[string]bool{})
+}
+
+func (g *qgen) selectionSetIn(def *ast.Definition, depth int, pathKeys []string, isRoot bool, compKeys map[string]bool) string {
 	var parts []string
 	fields := g.usableFields(def)
 	n := 1 + g.r.Intn(4)
@@ -243,6 +251,12 @@ func (g *qgen) selectionSet(def *ast.Definition, depth int, pathKeys []string, i
 		sig := f.Name + args
 		if prev, ok := used[key]; ok && (prev != sig || !g.o.dupFields || composite) {
 			return
+		}
+		if composite {
+			if compKeys[key] {
+				return
+			}
+			compKeys[key] = true
 		}
 		used[key] = sig
 		s := ""
@@ -297,7 +311,7 @@ func (g *qgen) selectionSet(def *ast.Definition, depth int, pathKeys []string, i
 			if cd.Kind == ast.Union {
 				body = "{ __typename }"
 			} else {
-				body = g.selectionSet(cd, depth-1, pathKeys, false)
+				body = g.selectionSetIn(cd, depth-1, pathKeys, false, compKeys)
 			}
 			if g.p(0.35) {
 				g.nfrag++
